@@ -69,6 +69,9 @@ package socket
 
 //@ func (*socket).Close
 //@   property C20
+//@   flags libframe frame-unchecked
+//@   modifies fields(s), allelems(type(byte)), lockset
+//@   ensures[locks-restored] sameLocks()
 //@   ensures[pooled-socket-cleared] old(s.fromPool) && old(s.curState) != activeClose ==> pooledSocketClean(s)
 
 //@ func (*socket).SetID
@@ -123,9 +126,14 @@ package socket
 // The body copy made while unmarshalling is sized by the decoded body (at most
 // the frame, unless a transfer filter expands it): it is not counted by the
 // frame-buffer monitor ghost.maxAlloc (C06 covers the frame buffers).
+// ghost: the message's body binder has been invoked (for a frame read by a
+// session this binds the frame to its route or, for a REPLY, to its call)
+//@ ghost field (*message).bound bool
+//@ ghost field (*message).headDecoded bool
 //@ func (*message).UnmarshalBody
 //@   flags libframe frame-unchecked
-//@   modifies m.body, allelems(type(byte))
+//@   modifies m.body, allelems(type(byte)), m.#bound
+//@   ghostset m.#bound = true
 //@ iface codec.Codec.Unmarshal
 //@   flags libframe
 //@ iface codec.Codec.Marshal
